@@ -89,9 +89,22 @@ func Materialise(root string, t model.Tree) error {
 // Snapshot lists everything below root (root excluded), sorted in walk order,
 // with hard-link groups labelled canonically by inode.  withData keeps file bytes.
 func Snapshot(root string, withData bool) (model.Tree, error) {
+	t, _, err := SnapshotCapped(root, withData, 0, 0)
+	return t, err
+}
+
+// SnapshotCapped is Snapshot that does not descend below maxDepth components and stops after
+// maxEntries entries (0 = no limit); truncated reports whether anything was left out.  A runaway
+// operation (a copy of a tree into itself) must not make the trace unreadable.
+func SnapshotCapped(root string, withData bool, maxEntries, maxDepth int) (model.Tree, bool, error) {
 	var t model.Tree
+	truncated := false
 	var rec func(rel string) error
 	rec = func(rel string) error {
+		if maxDepth > 0 && rel != "" && strings.Count(rel, "/")+1 >= maxDepth {
+			truncated = true
+			return nil
+		}
 		dir := filepath.Join(root, filepath.FromSlash(rel))
 		f, err := os.Open(dir)
 		if err != nil {
@@ -108,6 +121,10 @@ func Snapshot(root string, withData bool) (model.Tree, error) {
 			if rel != "" {
 				r = rel + "/" + n
 			}
+			if maxEntries > 0 && len(t) >= maxEntries {
+				truncated = true
+				return nil
+			}
 			e, err := StatEntry(filepath.Join(dir, n), r, withData)
 			if err != nil {
 				return err
@@ -122,7 +139,7 @@ func Snapshot(root string, withData bool) (model.Tree, error) {
 		return nil
 	}
 	if err := rec(""); err != nil {
-		return nil, err
+		return nil, false, err
 	}
 	t.Canon(func(e *model.Entry) string {
 		if e.Nlink > 1 {
@@ -130,7 +147,7 @@ func Snapshot(root string, withData bool) (model.Tree, error) {
 		}
 		return ""
 	})
-	return t, nil
+	return t, truncated, nil
 }
 
 // StatEntry describes one path without following symlinks.
